@@ -303,8 +303,9 @@ func abs(x int) int {
 }
 
 var codecNameGen = rapid.OneOf(
-	rapid.SampledFrom([]string{"grpc", "grpc-web", "connect+proto", "proto", "json", "x", "msgpack", "grpc+proto", "connect", "grpc-web+json"}),
+	rapid.SampledFrom([]string{"grpc", "grpc-web", "connect+proto", "proto", "json", "x", "msgpack", "grpc+proto", "connect", "grpc-web+json", "protoV2", "JSON", "Proto"}),
 	rapid.StringMatching(`[a-z][a-z0-9.+-]{0,8}`),
+	rapid.StringMatching(`[a-zA-Z][a-zA-Z0-9.+-]{0,8}`),
 )
 
 func gen(t *rapid.T) Case {
